@@ -60,20 +60,65 @@ pub fn is_sep(c: char) -> bool {
     !(c.is_ascii_alphanumeric() || c == '_' || c == '-' || c == '.' || c == '%')
 }
 
-fn m(ps: &[Piece], url: &[char], i: usize, right: bool) -> bool {
+/// The recursive definition (kept as the specification; exponential on patterns with many `*`):
+///   m([], i)        = !right || i == len
+///   m(Lit c :: r, i) = i < len && url[i] ~ c && m(r, i + 1)
+///   m(Star :: r, i)  = exists j >= i. m(r, j)
+///   m(Caret :: r, i) = (i < len && sep(url[i]) && m(r, i + 1)) || (r == [] && i == len)
+#[cfg(test)]
+fn m_rec(ps: &[Piece], url: &[char], i: usize, right: bool) -> bool {
     match ps.first() {
         None => !right || i == url.len(),
-        Some(Piece::Lit(c)) => i < url.len() && url[i].to_ascii_lowercase() == c.to_ascii_lowercase() && m(&ps[1..], url, i + 1, right),
-        Some(Piece::Star) => (i..=url.len()).any(|j| m(&ps[1..], url, j, right)),
-        Some(Piece::Caret) => (i < url.len() && is_sep(url[i]) && m(&ps[1..], url, i + 1, right)) || (ps.len() == 1 && i == url.len()),
+        Some(Piece::Lit(c)) => i < url.len() && url[i].to_ascii_lowercase() == c.to_ascii_lowercase() && m_rec(&ps[1..], url, i + 1, right),
+        Some(Piece::Star) => (i..=url.len()).any(|j| m_rec(&ps[1..], url, j, right)),
+        Some(Piece::Caret) => (i < url.len() && is_sep(url[i]) && m_rec(&ps[1..], url, i + 1, right)) || (ps.len() == 1 && i == url.len()),
     }
+}
+
+/// The same function tabulated: row[i] = m(ps[j..], i), filled from the last piece backwards
+/// (O(|ps| * |url|); the recursion above needs exponential time on long patterns with many `*`).
+fn table(ps: &[Piece], url: &[char], right: bool) -> Vec<bool> {
+    let n = url.len();
+    let k = ps.len();
+    let mut next: Vec<bool> = (0..=n).map(|i| !right || i == n).collect();
+    for j in (0..k).rev() {
+        let mut cur = vec![false; n + 1];
+        match &ps[j] {
+            Piece::Lit(c) => {
+                for i in 0..n {
+                    cur[i] = url[i].to_ascii_lowercase() == c.to_ascii_lowercase() && next[i + 1];
+                }
+            }
+            Piece::Star => {
+                let mut any = false;
+                for i in (0..=n).rev() {
+                    any |= next[i];
+                    cur[i] = any;
+                }
+            }
+            Piece::Caret => {
+                for i in 0..n {
+                    cur[i] = is_sep(url[i]) && next[i + 1];
+                }
+                if j == k - 1 {
+                    cur[n] = true;
+                }
+            }
+        }
+        next = cur;
+    }
+    next
+}
+
+fn m(ps: &[Piece], url: &[char], i: usize, right: bool) -> bool {
+    i <= url.len() && table(ps, url, right)[i]
 }
 
 /// `url`: the normalised request URL; `hostname`: its host; `host_start`: char offset of the host in url.
 pub fn matches(p: &Pat, url: &str, hostname: &str, host_start: usize) -> bool {
     let u: Vec<char> = url.chars().collect();
     match p.anchor {
-        Anchor::None => (0..=u.len()).any(|i| m(&p.body, &u, i, p.right)),
+        Anchor::None => table(&p.body, &u, p.right).iter().any(|b| *b),
         Anchor::Left => m(&p.body, &u, 0, p.right),
         Anchor::Host => {
             let h: Vec<char> = hostname.to_lowercase().chars().collect();
@@ -141,4 +186,59 @@ pub fn degenerate(p: &str) -> Option<&'static str> {
         }
     }
     None
+}
+
+
+#[cfg(test)]
+mod tests {
+    use super::*;
+
+    /// the tabulated matcher equals the recursive specification on every pattern body of length
+    /// <= 5 over {a b / * ^} x every URL of length <= 5 over {a b / .} x every start x both anchors
+    #[test]
+    fn table_equals_recursion() {
+        let pal = [Piece::Lit('a'), Piece::Lit('b'), Piece::Lit('/'), Piece::Star, Piece::Caret];
+        let ual = ['a', 'B', '/', '.'];
+        let mut bodies: Vec<Vec<Piece>> = vec![vec![]];
+        let mut frontier: Vec<Vec<Piece>> = vec![vec![]];
+        for _ in 0..5 {
+            let mut nf = vec![];
+            for b in &frontier {
+                for p in &pal {
+                    let mut x = b.clone();
+                    x.push(p.clone());
+                    nf.push(x);
+                }
+            }
+            bodies.extend(nf.iter().cloned());
+            frontier = nf;
+        }
+        let mut urls: Vec<Vec<char>> = vec![vec![]];
+        let mut fr: Vec<Vec<char>> = vec![vec![]];
+        for _ in 0..5 {
+            let mut nf = vec![];
+            for u in &fr {
+                for c in &ual {
+                    let mut x = u.clone();
+                    x.push(*c);
+                    nf.push(x);
+                }
+            }
+            urls.extend(nf.iter().cloned());
+            fr = nf;
+        }
+        let mut n = 0u64;
+        for b in &bodies {
+            for u in &urls {
+                for right in [false, true] {
+                    let t = table(b, u, right);
+                    for i in 0..=u.len() {
+                        assert_eq!(t[i], m_rec(b, u, i, right), "body {:?} url {:?} i {} right {}", b, u, i, right);
+                        n += 1;
+                    }
+                }
+            }
+        }
+        assert!(n > 10_000_000);
+    }
 }
